@@ -33,7 +33,7 @@ func genC10(r *h.Rng, tier string, idx int) *h.Plan {
 	for _, l := range locs {
 		all = append(all, own[l]...)
 	}
-	p.Cfg["ids"] = toIface(all)
+	p.Cfg["ids"] = toIface(append(append([]string{}, all...), "anchor", "side"))
 	marker := 0
 	mkRule := func(id string) map[string]interface{} {
 		marker++
@@ -52,6 +52,11 @@ func genC10(r *h.Rng, tier string, idx int) *h.Plan {
 		}
 		if r.P(1, 6) {
 			rule["ttl"] = "20s"
+		}
+		if r.P(1, 5) {
+			// the rule goes with the location's anchor fact (removed as a dependent,
+			// not by RemRule: the flag goes with the rule all the same)
+			rule["deleteWith"] = []interface{}{"anchor"}
 		}
 		if r.P(1, 6) {
 			rule["actions"] = []interface{}{rule["action"], map[string]interface{}{"code": fmt.Sprintf("'%s.m%d.b'", id, marker)}}
@@ -75,7 +80,17 @@ func genC10(r *h.Rng, tier string, idx int) *h.Plan {
 	for i := 0; i < n; i++ {
 		loc := r.Pick(locs)
 		id := r.Pick(own[loc])
-		switch r.Weighted([]int{8, 3, 4, 4, 2, 2, 2, 1, 1, 3, 2}) {
+		switch r.Weighted([]int{8, 3, 4, 4, 2, 2, 2, 1, 1, 3, 2, 3}) {
+		case 11:
+			switch r.Intn(3) {
+			case 0:
+				p.Ops = append(p.Ops, h.Op{K: "addfact", Loc: loc, Id: "anchor", J: map[string]interface{}{"anchor": loc}})
+				p.Ops = append(p.Ops, h.Op{K: "addfact", Loc: loc, Id: "side", J: map[string]interface{}{"side": loc, "deleteWith": []interface{}{"anchor"}}})
+			case 1:
+				p.Ops = append(p.Ops, h.Op{K: "addfact", Loc: loc, Id: "side", J: map[string]interface{}{"side": loc, "deleteWith": []interface{}{"anchor"}}})
+			default:
+				p.Ops = append(p.Ops, h.Op{K: "remfact", Loc: loc, Id: "anchor"})
+			}
 		case 0:
 			p.Ops = append(p.Ops, h.Op{K: "addrule", Loc: loc, Id: id, J: mkRule(id)})
 		case 1:
